@@ -40,7 +40,8 @@ FloatMaxInt(d) == CASE d = "f2" -> 65504 [] OTHER -> 2147483647
 (* The histogram physt.h1 builds from a batch of <<position, weight>> entries. *)
 EmptyRec(L, keep, dtype) ==
     [bins |-> L, keep |-> keep, freq |-> Zeros(Len(L)), err2 |-> Zeros(Len(L)), den |-> 1,
-     under |-> IF keep THEN 0 ELSE Unknown, over |-> IF keep THEN 0 ELSE Unknown,
+     \* physt.h1 reports under/overflow of non-consecutive bins as unknown
+     under |-> IF keep /\ Consecutive(L) THEN 0 ELSE Unknown, over |-> IF keep /\ Consecutive(L) THEN 0 ELSE Unknown,
      dtype |-> dtype, st |-> St0, stv |-> "ok", allIn |-> TRUE, name |-> 0,
      prec |-> 0]   \* 0: every float operation so far was exact; 1/2/3: some float64/float32/float16 rounding happened
 
